@@ -348,6 +348,10 @@ class _Gen:
     def thrower(self, depth, bound, ctx, budget):
         rng = self.rng
         r = rng.random()
+        if "*b*" in bound and rng.random() < 0.3:
+            # set! to a value the Var's validator rejects: must raise and leave the binding as it was
+            self._set_reject = getattr(self, "_set_reject", 0) + 1
+            return ["set", "*b*", M.REJECT]
         if r < 0.3:
             return ["throw"]
         if r < 0.75:
@@ -446,7 +450,7 @@ def describe():
                  "by the real reader/analyzer/generator)", "basilisp.lang.futures.ThreadPoolExecutor + stdlib worker loop",
                  "native LazySeq (pmap)"],
         "stub": ["Var._lock (sim RLock)", "pool locks/queue/threads (sim)", "OS scheduler", "clock"],
-        "fault_kinds": ["push_nondyn", "push_reject", "body_throw", "child_throw"],
+        "fault_kinds": ["push_nondyn", "push_reject", "body_throw", "set_reject"],
         "assumptions": ["Var hash order is a seeded permutation (address-dependent in production)",
                         "root changes are made by one designated thread; concurrent readers accept any overlapping value"],
         "hashseeds": [0],
@@ -462,6 +466,8 @@ def _count_faults(nodes, acc):
             if n[4] is not None:
                 acc["push_" + n[4][0]] = acc.get("push_" + n[4][0], 0) + 1
             _count_faults(n[3], acc)
+        elif t == "set" and n[2] == M.REJECT:
+            acc["set_reject"] = acc.get("set_reject", 0) + 1
         elif t == "throw":
             acc["body_throw"] = acc.get("body_throw", 0) + 1
         elif t == "try":
